@@ -22,6 +22,22 @@
 
 namespace Pistache::Tcp
 {
+    namespace
+    {
+        // The descriptor of a file buffer is closed once the file has been sent.
+        // Nothing else knows about it, so a write that is dropped instead (its
+        // peer is gone) has to close it as well.
+        template <typename Entries>
+        void closeFiles(Entries& entries)
+        {
+            for (auto& entry : entries)
+            {
+                if (entry.buffer.isFile())
+                    ::close(entry.buffer.fd());
+            }
+        }
+    } // namespace
+
     using namespace Polling;
 
     Transport::Transport(const std::shared_ptr<Tcp::Handler>& handler)
@@ -225,7 +241,12 @@ namespace Pistache::Tcp
         {
             // Clean up buffers
             Guard guard(toWriteLock);
-            toWrite.erase(fd);
+            auto wit = toWrite.find(fd);
+            if (wit != std::end(toWrite))
+            {
+                closeFiles(wit->second);
+                toWrite.erase(wit);
+            }
         }
 
         // Don't rely on close deleting this FD from the epoll "interest" list.
@@ -315,12 +336,15 @@ namespace Pistache::Tcp
                     // https://github.com/pistacheio/pistache/issues/501
                     else if (errno == EBADF || errno == EPIPE || errno == ECONNRESET)
                     {
+                        closeFiles(wq);
                         wq.pop_front();
                         toWrite.erase(fd);
                         stop = true;
                     }
                     else
                     {
+                        if (buffer.isFile())
+                            ::close(buffer.fd());
                         cleanUp();
                         deferred.reject(Pistache::Error::system("Could not write data"));
                     }
@@ -469,7 +493,11 @@ namespace Pistache::Tcp
 
             auto fd = write->peerFd;
             if (!isPeerFd(fd))
+            {
+                if (write->buffer.isFile())
+                    ::close(write->buffer.fd());
                 continue;
+            }
 
             {
                 Guard guard(toWriteLock);
